@@ -304,7 +304,17 @@ class Evaluator:
         return r
 
     def _bv(self, t):
-        t = strip(t)
+        # like terms.strip, but a widening `From::from` / `into()` is kept: it changes the width the following shifts
+        # and masks work in (`(u64::from(hi) << 32) | u64::from(lo)`)
+        from .terms import TRANSPARENT_CALLS
+        while True:
+            if t[0] in ("ref", "deref"):
+                t = t[1]
+                continue
+            if t[0] == "call" and len(t[2]) == 1 and short(t[1]) in TRANSPARENT_CALLS and short(t[1]) not in ("From::from", "Into::into"):
+                t = t[2][0]
+                continue
+            break
         k = t[0]
         if k == "const":
             w = ty_width(t[2])
